@@ -25,7 +25,7 @@ def inWin (a b : Int) (s : Sample) : Bool := decide (a ≤ s.1) && decide (s.1 <
 
 /-- The small error enum of the protocol (messages are not compared). -/
 inductive Err where
-  | index | value | runtime | notImpl | type | zeroDiv
+  | index | value | runtime | notImpl | type | zeroDiv | overflow
 deriving Repr, DecidableEq
 
 /-! ### Sources -/
@@ -118,6 +118,17 @@ def over (f : List Rat → Rat) (s : Src) (ranges : List (Int × Int)) (wh : Opt
                 (overStep f s center))
     | _, _ => .error .index
   | _, _ => .error .value
+
+/-- What one turn of the loop of `downsampled_over` hands to `reduce`, with the timestamp it will stamp. -/
+def overStepW (s : Src) (center : Bool) (r : Int × Int) : Option (Int × List Rat) :=
+  match (s.getitem r.1 r.2).samples with
+  | [] => none
+  | x :: xs =>
+    some (if center then (x.1 + (((x :: xs).getLast?).getD x).1) / 2 else r.1, (x :: xs).map (·.2))
+
+/-- The arrays `downsampled_over` hands to `reduce` (ranges inside the span, empty ones skipped). -/
+def overWindows (s : Src) (st sp : Int) (center : Bool) (ranges : List (Int × Int)) : List (Int × List Rat) :=
+  (ranges.filter fun r => decide (r.1 ≥ st) && decide (r.2 ≤ sp)).filterMap (overStepW s center)
 
 /-! ### `downsampled_to` -/
 
@@ -260,7 +271,8 @@ def likeDeltas (T : List Int) : List Int :=
 
 /-- Index of the first kept reference sample.  As the code is (`perWindow = false`):
     `searchsorted(T - δ[0], start)` — every reference sample is shifted by the FIRST window length.
-    `perWindow = true` is the proposed repair `searchsorted(T - δ, start)` (finding F9). -/
+    `perWindow = true` is `searchsorted(T - δ, start)`: the repair of finding F9, which IS the code since /repo
+    d1dbc24 (`perWindow = false` is kept as the record of the code before that repair). -/
 def likeStart (perWindow : Bool) (c : Cont) (T : List Int) : Nat :=
   let delta := likeDeltas T
   if perWindow then searchsortedLeft (List.zipWith (· - ·) T delta) c.start
@@ -276,7 +288,7 @@ def likeWindows (pw : Bool) (c : Cont) (T : List Int) : List (Int × List Rat) :
   (likeKept pw c T).map fun (t, δ) => (t, ((Src.cont c).getitem (t - δ) t).samples.map (·.2))
 
 /-- `Slice.downsampled_like(other)`: the downsampled channel and the cropped reference.
-    `pw = false` is the code as it is. -/
+    `pw = true` is the code as it is (since the repair of F9); `pw = false` the code before it. -/
 def like (pw : Bool) (f : List Rat → Rat) (s ref : Src) : Except Err (List Sample × List Sample) :=
   match ref with
   | .cont _ => .error .type
@@ -294,6 +306,92 @@ def like (pw : Bool) (f : List Rat → Rat) (s ref : Src) : Except Err (List Sam
           | some a, some b => .ok (out, r.filter (inWin a.1 (b.1 + 1)))
           | _, _ => .error .index
       | _, _, _ => .error .index
+
+/-- Executable form of the hypothesis "isolated frame-rate changes" (`IsolatedGrowth` in Lemmas): a reference
+    period longer than its predecessor is never followed by a still longer one. -/
+def isolatedGrowthB (d : List Int) : Bool :=
+  (List.range d.length).all fun j =>
+    !(decide (1 ≤ j) && decide (j + 1 < d.length) && decide (d.getD (j - 1) 0 < d.getD j 0)) ||
+      decide (d.getD (j + 1) 0 ≤ d.getD j 0)
+
+/-! ### `int(1e9 / frequency)`: the Hz → ns conversion of `downsampled_to` (executed on doubles) -/
+
+/-- `int(1e9 / frequency)` for a Python float: `ZeroDivisionError` for 0, `ValueError` for nan
+    (`int(nan)`), `OverflowError` for an infinite quotient, truncation toward zero otherwise.
+    `none`: quotient beyond 2^62 (outside the model). -/
+def targetOfFreq (fq : Float) : Option (Except Err Int) :=
+  if fq == 0 then some (.error .zeroDiv)
+  else
+    let q := (1000000000 : Float) / fq
+    if q.isNaN then some (.error .value)
+    else if q.isInf then some (.error .overflow)
+    else if q.abs ≥ 4611686018427387904 then none
+    else some (.ok q.toInt64.toInt)
+
+/-- `downsampled_to(frequency, …)` from the frequency itself.  An unknown method is refused before the
+    conversion is attempted. -/
+def downToFreq (f : List Rat → Rat) (s : Src) (fq : Float) (m : Option Method) (wh : Option Bool) :
+    Option (Except Err (List Sample)) :=
+  match m with
+  | none => some (.error .value)
+  | some m =>
+    match targetOfFreq fq with
+    | none => none
+    | some (.error e) => some (.error e)
+    | some (.ok t) => some (downTo f s t (some m) wh)
+
+/-! ### `int(1e9 / frequency)` once more, exactly (rationals): what the theorems speak about -/
+
+/-- Round half to even of `n / d` (`d > 0`) to a natural number. -/
+def roundHalfEven (n d : Nat) : Nat :=
+  let fl := n / d
+  let r := n % d
+  if 2 * r < d then fl else if d < 2 * r then fl + 1 else if fl % 2 = 0 then fl else fl + 1
+
+/-- `int(x)` of the double nearest to `n / d` (IEEE binary64, round to nearest even; `n / d` between the
+    normal range's bounds): 53 significant bits are kept, then the fraction is cut off. -/
+def truncRoundDouble (n d : Nat) : Nat :=
+  if 2 * n < d then 0          -- a quotient below 1/2 rounds to at most 1/2
+  else
+    let L := Nat.log2 (2 * n / d)          -- ⌊log₂ (n/d)⌋ + 1
+    if L ≤ 53 then roundHalfEven (n * 2 ^ (53 - L)) d / 2 ^ (53 - L)
+    else roundHalfEven n (d * 2 ^ (L - 53)) * 2 ^ (L - 53)
+
+/-- `int(1e9 / frequency)` computed exactly: the frequency is the rational value of the double handed in,
+    the quotient is rounded as IEEE division rounds it, `int` truncates toward zero.
+    `none`: |quotient| ≥ 2^62 (outside the model). -/
+def targetOfFreqQ (fq : Rat) : Option (Except Err Int) :=
+  if fq = 0 then some (.error .zeroDiv)
+  else
+    let q := (1000000000 : Rat) / (if fq < 0 then -fq else fq)
+    if q ≥ 4611686018427387904 then none
+    else
+      let v : Int := truncRoundDouble q.num.toNat q.den
+      some (.ok (if fq < 0 then -v else v))
+
+/-- `downsampled_to(frequency, …)` with the exact conversion. -/
+def downToFreqQ (f : List Rat → Rat) (s : Src) (fq : Rat) (m : Option Method) (wh : Option Bool) :
+    Option (Except Err (List Sample)) :=
+  match m with
+  | none => some (.error .value)
+  | some m =>
+    match targetOfFreqQ fq with
+    | none => none
+    | some (.error e) => some (.error e)
+    | some (.ok t) => some (downTo f s t (some m) wh)
+
+/-- The exact rational value of a double given by its bit pattern (`none` for nan / ±inf). -/
+def ratOfBits (b : Nat) : Option Rat :=
+  let sign := b / 2 ^ 63 % 2
+  let ex := b / 2 ^ 52 % 2048
+  let man := b % 2 ^ 52
+  if ex = 2047 then none
+  else
+    let mag : Rat :=
+      if ex = 0 then ((man : Nat) : Rat) / ((2 ^ 1074 : Nat) : Rat)
+      else if ex ≥ 1075 then (((2 ^ 52 + man) * 2 ^ (ex - 1075) : Nat) : Rat)
+      else ((2 ^ 52 + man : Nat) : Rat) / ((2 ^ (1075 - ex) : Nat) : Rat)
+    some (if sign = 1 then -mag else mag)
 
 /-! ### arithmetic -/
 
@@ -317,6 +415,14 @@ def Src.withData : Src → List Rat → Src
 def arith (op : Op) (a b : Src) : Except Err Src :=
   if b.timestamps ≠ a.timestamps then .error .runtime
   else .ok (a.withData (List.zipWith op.apply a.data b.data))
+
+/-- `-a` (`Slice.__neg__`): same timestamps, negated data. -/
+def neg (a : Src) : Src := a.withData (a.data.map fun v => -v)
+
+/-- `a <op> x` (`reversed = false`) and `x <op> a` (`reversed = true`, `__radd__`, `__rsub__`, `__rmul__`,
+    `__rtruediv__`) for a scalar `x`: `_unpack_other` hands a scalar through unchanged, numpy broadcasts it. -/
+def arithScalar (op : Op) (a : Src) (x : Rat) (reversed : Bool) : Src :=
+  a.withData (a.data.map fun v => if reversed then op.apply x v else op.apply v x)
 
 /-! ### the five reductions of the property text -/
 
@@ -347,6 +453,7 @@ def showErr : Err → String
   | .notImpl => "NotImplementedError"
   | .type => "TypeError"
   | .zeroDiv => "Error:ZeroDivisionError"
+  | .overflow => "Error:OverflowError"
 
 def showSamples (l : List Sample) : String :=
   showList (fun (s : Sample) => toString s.1 ++ ":" ++ showRat s.2) l
@@ -402,6 +509,23 @@ def handleLike (pw : Bool) (rest : List String) : Option String := do
         some ("ok [" ++ ",".intercalate shown ++ "] " ++ showIntList (refc.map (·.1)))
   | _ => none
 
+/-- `c04.likewins <src> <refsrc>`: the windows `downsampled_like` hands to `reduce`, as the code is
+    (`pw = true`): `ok <isolated growth T/F> [T|v,v,…;…]` -/
+def handleLikeWins (rest : List String) : Option String := do
+  let (s, rest) ← mkSrc? rest
+  let (ref, rest) ← mkSrc? rest
+  if rest ≠ [] then none
+  else match like true (fun _ => 0) s ref with
+    | .error e => some (showErr e)
+    | .ok _ =>
+      match s, ref with
+      | .cont c, .ts rl =>
+        let T := rl.map (·.1)
+        some ("ok " ++ showBool (isolatedGrowthB (diff T)) ++ " [" ++
+          ";".intercalate ((likeWindows true c T).map fun w =>
+            toString w.1 ++ "|" ++ ",".intercalate (w.2.map showRat)) ++ "]")
+      | _, _ => none
+
 def rule? (s : String) : Option Rule := do
   match ← intList? s with
   | [a, b, w, m, c, den] =>
@@ -438,8 +562,18 @@ def handleWin (isTo : Bool) (rest : List String) : Option String :=
   `c04.to   <src> <reduce> <where> <method> <step>`
   `c04.by   <src> <reduce> <k>`
   `c04.like <src> <reduce> <refsrc>`          values of empty windows are printed as `E`
-  `c04.likepw <src> <reduce> <refsrc>`        the same with the proposed repair of the start index (F9)
+  `c04.likepw <src> <reduce> <refsrc>`        the code as it is now (per-window start index, repair of F9); this is the op the harness runs
   `c04.arith <op> <srcA> <srcB>`
+  `c04.overwins <src> <where> [a,b;…]`        the arrays `downsampled_over` hands to `reduce`, with their timestamps
+  `c04.bywins <src> <k>`                     the rows `downsampled_by` hands to `reduce(axis=1)`
+  `c04.byby <src> <reduce> <k1> <k2>`         `downsampled_by(k1)` then `downsampled_by(k2)`
+  `c04.likewins <src> <refsrc>`              the windows handed to `reduce` by `downsampled_like` + isolated-growth flag
+  `c04.getitem <src> <a> <b>`                `self[a:b]` as used inside the downsampling loops
+  `c04.tof <src> <reduce> <where> <method> <frequency bits>`   `downsampled_to` from the frequency (double)
+  `c04.step <frequency bits>`                `int(1e9 / frequency)`: `ok <on the double> <exactly>`
+  `c04.neg <src>`                            `-a`
+  `c04.ariths <op> <0|1> <p/q> <src>`         `a <op> x` / (1:) `x <op> a` for a scalar
+  `c04.arith3 <op1> <op2> <srcA> <srcB> <srcC>`   `(a <op1> b) <op2> c`
   `c04.repair [d…]`                          the change-point repair alone
   where `<src>` is `cont <start> <dt> [v…]` or `ts [t…] [v…]` (values `p/q`). -/
 def handle : List String → Option String
@@ -472,6 +606,71 @@ def handle : List String → Option String
       | .ok c => some ("ok " ++ toString c.dt ++ " " ++ showSamples c.samples)
       | .error e => some (showErr e)
     | _ => none
+  | "c04.likewins" :: rest => handleLikeWins rest
+  | "c04.getitem" :: rest => do
+    let (s, rest) ← mkSrc? rest
+    match rest with
+    | [a, b] =>
+      let a ← int? a; let b ← int? b
+      some ("ok " ++ showSamples (s.getitem a b).samples)
+    | _ => none
+  | "c04.tof" :: rest => do
+    let (s, rest) ← mkSrc? rest
+    match rest with
+    | [r, w, m, fqs] =>
+      let r ← reduce? r
+      let fq ← float? fqs
+      let bits ← (fqs.drop 1).toString.toNat?
+      -- the conversion is done twice: on the double (Lean `Float`) and exactly (`targetOfFreqQ`); they must agree
+      let viaFloat := downToFreq r.apply s fq (method? m) (where? w)
+      match viaFloat, (ratOfBits bits).bind fun q => downToFreqQ r.apply s q (method? m) (where? w) with
+      | some a, some b =>
+        if showRes a = showRes b then some (showRes a) else some ("conversion-mismatch " ++ showRes a ++ " / " ++ showRes b)
+      | some a, none => some (showRes a)
+      | none, _ => none
+    | _ => none
+  | ["c04.step", fqs] => do
+    let fq ← float? fqs
+    let bits ← (fqs.drop 1).toString.toNat?
+    let sh := fun (r : Option (Except Err Int)) => match r with
+      | some (.ok t) => toString t
+      | some (.error e) => showErr e
+      | none => "outside"
+    some ("ok " ++ sh (targetOfFreq fq) ++ " " ++ sh ((ratOfBits bits).bind targetOfFreqQ))
+  | "c04.byby" :: rest => do
+    let (s, rest) ← mkSrc? rest
+    match rest with
+    | [r, k1, k2] =>
+      let r ← reduce? r
+      let k1 ← nat? k1; let k2 ← nat? k2
+      match downBy r.apply s k1 with
+      | .error e => some (showErr e)
+      | .ok c1 =>
+        match downBy r.apply (.cont c1) k2 with
+        | .ok c => some ("ok " ++ toString c.dt ++ " " ++ showSamples c.samples)
+        | .error e => some (showErr e)
+    | _ => none
+  | "c04.overwins" :: rest => do
+    let (s, rest) ← mkSrc? rest
+    match rest with
+    | [w, rg] =>
+      let rows ← intListList? rg
+      let ranges ← rows.mapM pair?
+      match over (fun _ => 0) s ranges (where? w), where? w, s.start?, s.stop? with
+      | .error e, _, _, _ => some (showErr e)
+      | .ok _, some center, some st, some sp =>
+        some ("ok [" ++ ";".intercalate ((overWindows s st sp center ranges).map fun w =>
+          toString w.1 ++ "|" ++ ",".intercalate (w.2.map showRat)) ++ "]")
+      | _, _, _, _ => none
+    | _ => none
+  | "c04.bywins" :: rest => do
+    let (s, rest) ← mkSrc? rest
+    match rest, s with
+    | [k], .cont c =>
+      let k ← nat? k
+      if k = 0 then some (showErr .zeroDiv) else some ("ok " ++ showListList showRat (blocks k c.data))
+    | [_], .ts _ => some (showErr .notImpl)
+    | _, _ => none
   | "c04.like" :: rest => handleLike false rest
   | "c04.likepw" :: rest => handleLike true rest
   | "c04.arith" :: o :: rest => do
@@ -482,6 +681,26 @@ def handle : List String → Option String
     else match arith o a b with
       | .ok r => some ("ok " ++ showSamples r.samples)
       | .error e => some (showErr e)
+  | "c04.neg" :: rest => do
+    let (a, rest) ← mkSrc? rest
+    if rest ≠ [] then none else some ("ok " ++ showSamples (neg a).samples)
+  | "c04.ariths" :: o :: rev :: x :: rest => do
+    let o ← op? o
+    let x ← rat? x
+    let rev ← (match rev with | "0" => some false | "1" => some true | _ => none)
+    let (a, rest) ← mkSrc? rest
+    if rest ≠ [] then none else some ("ok " ++ showSamples (arithScalar o a x rev).samples)
+  | "c04.arith3" :: o1 :: o2 :: rest => do
+    let o1 ← op? o1; let o2 ← op? o2
+    let (a, rest) ← mkSrc? rest
+    let (b, rest) ← mkSrc? rest
+    let (c, rest) ← mkSrc? rest
+    if rest ≠ [] then none
+    else match arith o1 a b with
+      | .error e => some (showErr e)
+      | .ok r => match arith o2 r c with
+        | .ok r => some ("ok " ++ showSamples r.samples)
+        | .error e => some (showErr e)
   | ["c04.repair", d] => do
     let d ← intList? d
     some (showIntList (repair d))
